@@ -170,8 +170,9 @@ def rule_w2(chk: Check):
         for st in fn.body:
             for n in ast.walk(st):
                 if isinstance(n, ast.Call) and isinstance(n.func, ast.Name) and n.func.id == "method":
-                    # find the enclosing top-level statement; it must be the `if key not in self._cache` block
-                    if not (isinstance(st, ast.If) and norm_stmt(st.test) == "key not in self._cache"):
+                    # it must sit in the *body* of the top-level `if key not in self._cache:` block
+                    if not (isinstance(st, ast.If) and norm_stmt(st.test) == "key not in self._cache"
+                            and any(n is x for b in st.body for x in ast.walk(b))):
                         calls_ok = False
         chk.require(calls_ok, "W2-cache-hit", f"{inner}:miss-only", where,
                     "the wrapped rule may only run when the key is not cached")
